@@ -1,22 +1,29 @@
-"""Discharge verification conditions: z3 API first, then cvc5 (--strings-exp), then the z3 CLIs.
+"""Discharge verification conditions.
 
-A VC (pc, goal) is *discharged* iff  pc /\\ not goal  is unsat for at least one back end.
-`sat` gives a counter-model; `unknown`/timeout on every back end is *undecided* and is
-never reported as a violation.
+A VC (pc, goal) is *discharged* iff  pc /\\ not goal  is unsat for at least one back end:
+  1. simplifier      goal simplified to true while executing
+  2. z3-abstract     unsat already in the string-free abstraction (in-process, sound for unsat only)
+  3. z3-cli-5.1      `z3-new` on the SMT-LIB text, killed at a hard wall-clock limit
+  4. cvc5            `/usr/bin/cvc5 --strings-exp`, likewise
+  5. z3-cli-4.8      `/usr/bin/z3` with another seed
+z3's string solver does not reliably honour its own timeout, hence all string reasoning runs in
+killable subprocesses.  `sat` gives a counter-model; unknown/timeout everywhere is *undecided*
+and is never reported as a violation.
 """
 import os
 import re
 import subprocess
 import tempfile
 import time
-from concurrent.futures import ProcessPoolExecutor
 
 import z3
 
-Z3_QUICK_MS = int(os.environ.get("PYVC_Z3_QUICK_MS", "3000"))
-Z3_FULL_MS = int(os.environ.get("PYVC_Z3_FULL_MS", "20000"))
-CVC5_S = int(os.environ.get("PYVC_CVC5_S", "30"))
-Z3CLI_S = int(os.environ.get("PYVC_Z3CLI_S", "30"))
+from .abstract import unsat_abstract
+
+Z3_QUICK_S = float(os.environ.get("PYVC_Z3_QUICK_S", "8"))
+CVC5_S = float(os.environ.get("PYVC_CVC5_S", "20"))
+Z3_FULL_S = float(os.environ.get("PYVC_Z3_FULL_S", "25"))
+TMP = os.environ.get("PYVC_TMP", "/var/tmp")
 
 
 def vc_smt2(vc):
@@ -25,28 +32,6 @@ def vc_smt2(vc):
         s.add(c)
     s.add(z3.Not(vc.goal))
     return s.to_smt2()
-
-
-def model_to_dict(m):
-    out = {}
-    for d in m.decls():
-        if d.arity() != 0:
-            continue
-        v = m[d]
-        try:
-            if z3.is_string_value(v):
-                out[d.name()] = _unesc(v.as_string())
-            elif z3.is_int_value(v):
-                out[d.name()] = v.as_long()
-            elif z3.is_true(v) or z3.is_false(v):
-                out[d.name()] = z3.is_true(v)
-            elif z3.is_rational_value(v):
-                out[d.name()] = float(v.as_fraction())
-            else:
-                out[d.name()] = str(v)
-        except Exception:
-            out[d.name()] = str(v)
-    return out
 
 
 def _unesc(s):
@@ -63,108 +48,205 @@ def _unesc(s):
     return "".join(out)
 
 
-def quick(vc, timeout_ms=None):
-    t0 = time.time()
-    s = z3.Solver()
-    s.set("timeout", timeout_ms or Z3_QUICK_MS)
-    for c in vc.pc:
-        s.add(c)
-    s.add(z3.Not(vc.goal))
-    r = s.check()
-    dt = time.time() - t0
-    if r == z3.unsat:
-        return "unsat", "z3-api", dt, None
-    if r == z3.sat:
-        return "sat", "z3-api", dt, model_to_dict(s.model())
-    return "unknown", "z3-api", dt, None
+# ---- tiny s-expression reader for (get-model) output ------------------------------------------
+def _tokens(text):
+    i, n = 0, len(text)
+    while i < n:
+        c = text[i]
+        if c.isspace():
+            i += 1
+        elif c in "()":
+            yield c
+            i += 1
+        elif c == '"':
+            j = i + 1
+            buf = []
+            while j < n:
+                if text[j] == '"':
+                    if j + 1 < n and text[j + 1] == '"':
+                        buf.append('"')
+                        j += 2
+                        continue
+                    break
+                buf.append(text[j])
+                j += 1
+            yield ("str", "".join(buf))
+            i = j + 1
+        elif c == "|":
+            j = text.index("|", i + 1)
+            yield text[i + 1 : j]
+            i = j + 1
+        elif c == ";":
+            while i < n and text[i] != "\n":
+                i += 1
+        else:
+            j = i
+            while j < n and not text[j].isspace() and text[j] not in "()":
+                j += 1
+            yield text[i:j]
+            i = j
 
 
-def _run(cmd, text, timeout):
-    with tempfile.NamedTemporaryFile("w", suffix=".smt2", delete=False, dir=os.environ.get("PYVC_TMP", "/var/tmp")) as fh:
-        fh.write(text)
-        path = fh.name
-    try:
-        p = subprocess.run(cmd + [path], capture_output=True, text=True, timeout=timeout + 5)
-        return p.stdout
-    except subprocess.TimeoutExpired:
-        return "timeout"
-    finally:
-        os.unlink(path)
+def _parse(tokens):
+    stack = [[]]
+    for t in tokens:
+        if t == "(":
+            stack.append([])
+        elif t == ")":
+            x = stack.pop()
+            stack[-1].append(x)
+        else:
+            stack[-1].append(t)
+    return stack[0]
 
 
-_DEF = re.compile(r'\(define-fun\s+(\|[^|]*\||\S+)\s+\(\)\s+(\S+)\s+(.*)\)\s*$')
+def _val(v):
+    if isinstance(v, tuple):
+        return _unesc(v[1])
+    if isinstance(v, list):
+        if len(v) == 2 and v[0] == "-":
+            x = _val(v[1])
+            return -x if isinstance(x, (int, float)) else str(v)
+        if len(v) == 3 and v[0] == "/":
+            try:
+                return float(_val(v[1])) / float(_val(v[2]))
+            except Exception:
+                return str(v)
+        if len(v) >= 2 and v[0] == "str.++":
+            parts = [_val(x) for x in v[1:]]
+            if all(isinstance(p, str) for p in parts):
+                return "".join(parts)
+        return str(v)
+    if v == "true":
+        return True
+    if v == "false":
+        return False
+    if re.match(r"-?\d+$", v):
+        return int(v)
+    if re.match(r"-?\d+\.\d+$", v):
+        return float(v)
+    return v
 
 
 def parse_model(out):
     m = {}
-    for line in out.splitlines():
-        mm = _DEF.match(line.strip())
-        if not mm:
-            continue
-        name, sort, val = mm.group(1).strip("|"), mm.group(2), mm.group(3).strip()
-        if sort == "String" and val.startswith('"'):
-            v = val[1:-1].replace('""', '"')
-            m[name] = _unesc(v)
-        elif sort == "Int":
-            mneg = re.match(r"\(-\s+(\d+)\)", val)
-            m[name] = -int(mneg.group(1)) if mneg else (int(val) if re.match(r"-?\d+$", val) else val)
-        elif sort == "Bool":
-            m[name] = val == "true"
-        else:
-            m[name] = val
+    try:
+        sx = _parse(_tokens(out))
+    except Exception:
+        return m
+
+    def walk(x):
+        if isinstance(x, list):
+            if len(x) == 5 and x[0] == "define-fun" and x[2] == []:
+                m[x[1]] = _val(x[4])
+            else:
+                for y in x:
+                    walk(y)
+
+    walk(sx)
     return m
 
 
-def heavy(text):
-    """Run in a worker process: cvc5, then z3-new CLI, then z3 4.8 CLI."""
+def _run(cmd, text, timeout):
     t0 = time.time()
-    # z3 API with the full budget and a different seed
     try:
-        s = z3.Solver()
-        s.set("timeout", Z3_FULL_MS)
-        s.set("random_seed", 7)
-        s.from_string(text)
-        r = s.check()
-        if r == z3.unsat:
-            return "unsat", "z3-api", time.time() - t0, None
-        if r == z3.sat:
-            return "sat", "z3-api", time.time() - t0, model_to_dict(s.model())
-    except z3.Z3Exception:
-        pass
+        return _run0(cmd, text, timeout)
+    finally:
+        if os.environ.get("PYVC_TRACE"):
+            import sys
+            print("[solve] %s %.1fs" % (cmd[0], time.time() - t0), file=sys.stderr)
+
+
+def _run0(cmd, text, timeout):
+    with tempfile.NamedTemporaryFile("w", suffix=".smt2", delete=False, dir=TMP) as fh:
+        fh.write(text)
+        path = fh.name
+    try:
+        p = subprocess.run(cmd + [path], capture_output=True, text=True, timeout=timeout + 2)
+        return p.stdout
+    except subprocess.TimeoutExpired:
+        return "timeout"
+    finally:
+        try:
+            os.unlink(path)
+        except OSError:
+            pass
+
+
+def _first(out):
+    for line in out.splitlines():
+        line = line.strip()
+        if line in ("sat", "unsat", "unknown", "timeout"):
+            return line
+    return out.strip().split("\n")[0] if out.strip() else ""
+
+
+THOROUGH = os.environ.get("VERIF_TIER") == "thorough" or os.environ.get("PYVC_THOROUGH") == "1"
+
+
+def cli_check(text, budget=1.0):
+    """Run the external back ends on SMT-LIB text; returns (status, backend, model).
+    Order: cvc5 (fast and stable on the string/regex fragment), z3 5.1, then (thorough tier)
+    z3 4.8 and z3 5.1 with another seed."""
     body = text.replace("(set-info :status unknown)", "")
+    z3text = body + "\n(get-model)\n"
     cv = "(set-logic ALL)\n(set-option :produce-models true)\n" + body + "\n(get-model)\n"
-    out = _run(["/usr/bin/cvc5", "--strings-exp", "--tlimit=%d" % (CVC5_S * 1000)], cv, CVC5_S)
-    first = out.strip().splitlines()[0] if out.strip() else ""
-    if first == "unsat":
-        return "unsat", "cvc5", time.time() - t0, None
-    if first == "sat":
-        return "sat", "cvc5", time.time() - t0, parse_model(out)
-    for exe, tag in (("z3-new", "z3-cli-5.1"), ("/usr/bin/z3", "z3-cli-4.8")):
-        out = _run([exe, "-T:%d" % Z3CLI_S, "smt.random_seed=11"], body + "\n", Z3CLI_S)
-        first = out.strip().splitlines()[0] if out.strip() else ""
-        if first == "unsat":
-            return "unsat", tag, time.time() - t0, None
-        if first == "sat":
-            return "sat", tag, time.time() - t0, {}
-    return "unknown", "all", time.time() - t0, None
+    t = CVC5_S * budget
+    out = _run(["/usr/bin/cvc5", "--strings-exp", "--tlimit=%d" % int(t * 1000)], cv, t)
+    f = _first(out)
+    if f == "unsat":
+        return "unsat", "cvc5", None
+    if f == "sat":
+        return "sat", "cvc5", parse_model(out)
+    t = Z3_QUICK_S * budget
+    out = _run(["z3-new", "-T:%d" % max(1, int(t))], z3text, t)
+    f = _first(out)
+    if f == "unsat":
+        return "unsat", "z3-cli-5.1", None
+    if f == "sat":
+        return "sat", "z3-cli-5.1", parse_model(out)
+    if not THOROUGH:
+        return "unknown", "cvc5+z3", None
+    out = _run(["/usr/bin/z3", "-T:%d" % int(Z3_FULL_S), "smt.random_seed=11"], z3text, Z3_FULL_S)
+    f = _first(out)
+    if f == "unsat":
+        return "unsat", "z3-cli-4.8", None
+    if f == "sat":
+        return "sat", "z3-cli-4.8", parse_model(out)
+    out = _run(["z3-new", "-T:%d" % int(Z3_FULL_S), "smt.random_seed=5"], z3text, Z3_FULL_S)
+    f = _first(out)
+    if f == "unsat":
+        return "unsat", "z3-cli-5.1", None
+    if f == "sat":
+        return "sat", "z3-cli-5.1", parse_model(out)
+    return "unknown", "all", None
 
 
-def discharge(vcs, jobs=None):
-    """Fill vc.status/backend/time/model for every VC."""
-    jobs = jobs or min(16, os.cpu_count() or 4)
-    hard = []
+_dump_n = [0]
+
+
+def discharge_one(vc):
+    t0 = time.time()
+    if z3.is_true(vc.goal):
+        vc.status, vc.backend, vc.time = "unsat", "simplifier", 0.0
+        return
+    try:
+        if unsat_abstract(vc.pc, vc.goal):
+            vc.status, vc.backend, vc.time = "unsat", "z3-abstract", time.time() - t0
+            return
+    except (ValueError, z3.Z3Exception):
+        pass
+    text = vc_smt2(vc)
+    if os.environ.get("PYVC_DUMP"):
+        _dump_n[0] += 1
+        open(os.path.join(os.environ["PYVC_DUMP"], "vc%d_%04d.smt2" % (os.getpid(), _dump_n[0])), "w").write(text)
+    st, be, model = cli_check(text)
+    vc.status, vc.backend, vc.model, vc.time = st, be, model, time.time() - t0
+
+
+def discharge(vcs, jobs=None, inline_heavy=True, stop_at_sat=False):
     for vc in vcs:
-        if z3.is_true(vc.goal):
-            vc.status, vc.backend, vc.time = "unsat", "simplifier", 0.0
-            continue
-        st, be, dt, model = quick(vc)
-        vc.status, vc.backend, vc.time, vc.model = st, be, dt, model
-        if st == "unknown":
-            hard.append(vc)
-    if hard:
-        texts = [vc_smt2(vc) for vc in hard]
-        with ProcessPoolExecutor(max_workers=jobs) as ex:
-            for vc, (st, be, dt, model) in zip(hard, ex.map(heavy, texts)):
-                vc.time += dt
-                vc.status, vc.backend, vc.model = st, be, model
+        discharge_one(vc)
+        if stop_at_sat and vc.status == "sat":
+            break
     return vcs
